@@ -177,7 +177,7 @@ def run_check(spec, tier, seed, replay=None):
     samples = []
     traces_validated = 0
     unmodelled = 0
-    storeok = dict(images=0, indexed=0, ok=0)
+    storeok = dict(images=0, indexed=0, ok=0, uniq=0)
     hist = {}
     outcomes = {}
     diffs_all = []
@@ -248,10 +248,14 @@ def run_check(spec, tier, seed, replay=None):
                         unmodelled += sum(1 for l in r["model_lines"] if l.startswith("# unmodelled"))
                         for l in r["model_lines"]:
                             if l.startswith("# storeok "):
-                                for kv in l.split()[2:]:
-                                    k, _, v = kv.partition("=")
+                                kvs = dict(kv.partition("=")[::2] for kv in l.split()[2:])
+                                for k, v in kvs.items():
                                     if k in storeok and v.isdigit():
                                         storeok[k] += int(v)
+                                if kvs.get("images") == "1":   # a complete image (load / loadd), not a crash prefix
+                                    for k, v in kvs.items():
+                                        if v.isdigit():
+                                            storeok["complete_" + k] = storeok.get("complete_" + k, 0) + int(v)
                         diffs, gs, ms = brv.diff_streams(r["go_lines"], r["model_lines"])
                         traces_validated += len(gs) - len(diffs)
                         for d in diffs:
